@@ -176,17 +176,15 @@ func (ch *Channel) runWriter(writerTerminate chan struct{}) error {
 		case what := <-ch.chWrite:
 			verifPoint("ch.writer.dequeue", ch)
 			switch wh := what.(type) {
+			// a failed write (item that cannot be encoded for this link, transport error)
+			// must not stop the writer, otherwise the channel stays open while
+			// silently discarding everything that is written afterwards.
+			// A broken transport is detected and reported by the reader.
 			case message.Message:
-				err := ch.streamWriter.Write(wh)
-				if err != nil {
-					return err
-				}
+				ch.streamWriter.Write(wh) //nolint:errcheck
 
 			case frame.Frame:
-				err := ch.frameWriter.Write(wh)
-				if err != nil {
-					return err
-				}
+				ch.frameWriter.Write(wh) //nolint:errcheck
 			}
 
 		case <-writerTerminate:
